@@ -74,6 +74,11 @@ def cases(tier, seed):
             for start in D.STATES:
                 out.append({"part": "pairs", "transport": transport, "extra": 0, "leaves_qs": False, "start": start, "N": 0,
                             "latency": lat})
+    # a state assignment that FAILS (the drive does not get the controlwords for a while) and is then repeated on the same
+    # node object once the drive listens again
+    for transport in ("sdo", "pdo"):
+        for start in D.STATES:
+            out.append({"part": "retry", "transport": transport, "start": start})
     for lo in range(0, 65536, 8192):
         out.append({"part": "decoder", "range": [lo, lo + 8192]})
     for name in D.MODE_CODES:
@@ -270,7 +275,43 @@ def run_opmode(case, st):
     st.states += 1
 
 
+def run_retry(case, st):
+    start = case["start"]
+    for target in ([case["target"]] if "target" in case else D.STATES):
+        if target in NONCMD or target == start:
+            continue
+        ch = kernel.Chooser([])
+        node, drive, bus = make(case["transport"], start, ch, 0, False)
+        st.evaluations += 1
+        st.traces += 1
+        st.nontrivial_n += 1
+        rc = dict(case, target=target)
+        drive.deaf = True
+        try:
+            node.state = target
+            first = None
+        except Exception as e:  # noqa: BLE001
+            first = e
+        if first is None and drive.state != target:
+            st.violation(f"C19:retry:failure-not-reported:{case['transport']}", rc, "an exception (the drive never moved)", f"returned; drive in {drive.state}")
+            continue
+        drive.deaf = False
+        cws0 = len(drive.cws)
+        try:
+            node.state = target
+        except Exception as e:  # noqa: BLE001
+            st.violation(f"C19:retry:second-assignment-raises:{type(e).__name__}:{case['transport']}", rc, f"drive reaches {target}",
+                         f"{e!r} after first attempt {first!r}; controlwords of the second attempt {[hex(c) for c in drive.cws[cws0:]]}"[:300])
+            continue
+        if drive.state != target:
+            st.violation(f"C19:retry:wrong-final-state:{case['transport']}", rc, target, drive.state)
+            continue
+        st.outcome("retry reached")
+
+
 def run_case(case, st):
+    if case["part"] == "retry":
+        return run_retry(case, st)
     {"pairs": run_pairs, "decoder": run_decoder, "opmode": run_opmode}[case["part"]](case, st)
 
 
